@@ -478,6 +478,9 @@ def main(args=None):
         install_profiler = global_profiler._kernprof_overwrite
 
     if global_profiler:
+        # Remember the state of the global `@line_profiler.profile` so
+        # that it can be handed back as we found it
+        old_global_state = global_profiler._profile, global_profiler.enabled
         install_profiler(prof)
 
     if options.builtin:
@@ -549,7 +552,7 @@ def main(args=None):
                 print(f'{py_exe} -m line_profiler -rmt "{options.outfile}"')
         # Restore the state of the global `@line_profiler.profile`
         if global_profiler:
-            install_profiler(None)
+            global_profiler._profile, global_profiler.enabled = old_global_state
 
 
 if __name__ == '__main__':
